@@ -167,6 +167,22 @@ def auto_discharge(P, s):
             if c[0] == 'bin' and c[1] in ('Ne', 'Eq') and c[3] == ('int', 0, 'usize') and _same(c[2], d):
                 if (c[1] == 'Ne') == (lab is True) and _no_redef_between(f, d, gb, s['block'], gt):
                     return 'DC-GUARD', 'divisor tested non-zero by a dominating branch'
+        # divisor is a parameter: every call site must pass a value guarded there
+        if d[0] == 'arg' and f.kind != 'Closure':
+            sites = [(g, c) for g in P.fns.values() if not g.raw.get('derived') for c in g.calls(lambda r: r['path'] == f.id)]
+            if sites:
+                okall = True
+                for g, c in sites:
+                    a = strip(g.expr_of_operand(c['term']['args'][d[1] - 1]))
+                    hit = False
+                    for cond, lab, gb, gt in _dominating_guards(g, c['block']):
+                        if cond[0] == 'call' and cond[1].endswith('::is_power_of_two') and lab is True and _same(cond[2][0], a):
+                            hit = True
+                        if cond[0] == 'bin' and cond[1] in ('Ne', 'Eq') and cond[3] == ('int', 0, 'usize') and _same(cond[2], a) and (cond[1] == 'Ne') == (lab is True):
+                            hit = True
+                    okall = okall and hit
+                if okall:
+                    return 'DC-GUARD', 'divisor is a parameter and every call site passes a value tested non-zero by a dominating branch'
     if s['kind'] == 'assert' and s['what'] == 'Overflow:Sub':
         a, b = s['ops']
         for cond, lab, gb, gt in _dominating_guards(f, s['block']):
@@ -328,7 +344,7 @@ def supporting_fact(ctx, name):
         return (len(sites) >= 1 and not bad), 'Type::Unresolved constructed in %s' % sorted(set(sites))
     if name in ('registry-never-removes', 'modules-never-removed'):
         vty = 'semantic::types::ItemDefinition' if name == 'registry-never-removes' else 'semantic::module::Module'
-        bad = [(f.id, c['path']) for f, c in all_calls(P, r'HashMap::<grammar::ItemPath, %s>::(remove|remove_entry|clear|retain|drain|extract_if)$' % re.escape(vty))]
+        bad = [(f.id, c['path']) for f, c in all_calls(P, r'(?:HashMap|BTreeMap)::<grammar::ItemPath, %s>::(remove|remove_entry|clear|retain|drain|extract_if|pop_first|pop_last|split_off)$' % re.escape(vty))]
         return not bad, 'removing calls: %s' % bad
     if name == 'function_to_region-makes-Function':
         try:
